@@ -335,18 +335,23 @@ Section Exec.
   Variable t : table.
 
   (* an UPDATE event of the correspondence is (session parameters, flag :: attribute block); flag = 1 when the
-     (stateless) NLRI part of that message holds no announce and no withdraw, as measured on a fresh decode *)
-  Definition xstep := step Z Z (list (Z * Z)) bool unit K proj keqb (tdec t) (fun c => c) (fun b => Some (tl b))
-                           (fun _ b _ => match b with 1 :: _ => true | _ => false end) (fun n => n) (fun _ _ => [])
+     (stateless) NLRI part of that message holds no announce and no withdraw, as measured on a fresh decode.
+     The NLRI part also carries the collection exactly as AttributeCollection.unpack handed it out (before
+     _parse_payload pops the MP attributes): a shared object that lost an attribute earlier shows here *)
+  Definition xstep := step Z Z (list (Z * Z)) (bool * list (Z * Z)) unit K proj keqb (tdec t) (fun c => c) (fun b => Some (tl b))
+                           (fun _ b full => (match b with 1 :: _ => true | _ => false end, full)) (fun n => fst n) (fun _ _ => [])
                            (fun _ => Some tt) (fun _ => []) (fun _ => None) (fun k => k) (fun _ _ _ => []).
 
-  (* per message: -1 - e for an exception e out of the attribute parser; -3 :: content of the second unpack for an
-     UPDATE that decoded to nothing; else the (code, value id) pairs left in the message's collection *)
-  Definition xobs (o : output Z Z (list (Z * Z)) bool unit) : list Z :=
+  Definition xflat (a : list (Z * Z)) : list Z := flat_map (fun kv => [fst kv; snd kv]) a.
+
+  (* per message: -1 - e for an exception e out of the attribute parser; else the (code, value id) pairs of the
+     collection as handed out, then -7 and the pairs left in the message's collection, or (UPDATE that decoded to
+     nothing) -3 and the content of the second unpack *)
+  Definition xobs (o : output Z Z (list (Z * Z)) (bool * list (Z * Z)) unit) : list Z :=
     match o with
     | OErr _ _ _ _ _ e => [-1 - e]
-    | OUpd _ _ _ _ _ _ a _ _ => flat_map (fun kv => [fst kv; snd kv]) a
-    | OEor _ _ _ _ _ _ a => -3 :: flat_map (fun kv => [fst kv; snd kv]) a
+    | OUpd _ _ _ _ _ n a _ _ => xflat (snd n) ++ -7 :: xflat a
+    | OEor _ _ _ _ _ n a => xflat (snd n) ++ -3 :: xflat a
     | _ => [-2]
     end.
 
